@@ -342,7 +342,7 @@ fn c17() -> (bool, String) {
         let flags = match Flags::from_bits(fb) { Some(f) => f, None => continue };
         let store = RefStore::new(2);
         let mut a = Authenticator::new(Aaguid::new_empty(), store.clone(), yes());
-        let application = [0xa0u8 + ci as u8; 32]; let challenge = [0x5cu8; 32];
+        let application = [[0xa0u8, 0xfb, 0xff, 0xbf][ci]; 32]; /* 0xfb.. / 0xff.. / 0xbf..: base64 and base64url spell these differently */ let challenge = [0x5cu8; 32];
         let handle: Vec<u8> = (0..hl).map(|k| (k * 7 + 1) as u8).collect();
         let ctx = format!("key handle of {hl} byte(s), counter {counter}, presence byte {fb:#04x}");
         let reg = match block_on(U2fApi::register(&mut a, RegisterRequest { challenge, application }, &handle)) { Ok(r) => r, Err(e) => return (true, format!("{ctx}: registration failed: {e:?}")) };
